@@ -58,6 +58,8 @@ type Decoy struct {
 	Address [20]byte // the address the file is named for
 	AddrHex string   // 40 lower-case hex digits, no prefix
 	Holds   string   // 40 hex digits of the address whose key the file really holds ("" = none usable)
+	label   string   // derives the address (and, for wrong-password / no-password, the key the file holds)
+	serial  int      // derives salt, IV and id of the file
 }
 
 // Addr0x returns the lower-case 0x-prefixed address the decoy is filed under.
@@ -79,56 +81,165 @@ var DecoyKinds = []string{"misfiled-wallet-key", "misfiled-foreign-key", "garbag
 // Decoys returns the deterministic decoy entries of the test wallet (same in every run).
 func Decoys(keys []WalletKey) []Decoy {
 	out := make([]Decoy, 0, len(DecoyKinds))
-	for _, kind := range DecoyKinds {
-		_, a := labelKey("verifharness decoy " + kind)
-		d := Decoy{Kind: kind, Address: a, AddrHex: hex.EncodeToString(a[:])}
-		switch kind {
-		case "misfiled-wallet-key":
-			d.Holds = keys[len(keys)-1].AddrHex
-		case "misfiled-foreign-key":
-			_, f := labelKey("verifharness foreign key")
-			d.Holds = hex.EncodeToString(f[:])
-		}
-		out = append(out, d)
+	for i, kind := range DecoyKinds {
+		out = append(out, newDecoy(kind, "verifharness decoy "+kind, i, keys))
 	}
 	return out
 }
 
+func newDecoy(kind, label string, serial int, keys []WalletKey) Decoy {
+	_, a := labelKey(label)
+	d := Decoy{Kind: kind, Address: a, AddrHex: hex.EncodeToString(a[:]), label: label, serial: serial}
+	switch kind {
+	case "misfiled-wallet-key":
+		d.Holds = keys[len(keys)-1].AddrHex
+	case "misfiled-foreign-key":
+		_, f := labelKey("verifharness foreign key")
+		d.Holds = hex.EncodeToString(f[:])
+	}
+	return d
+}
+
+// ExtraDecoy returns the n-th decoy entry of a kind (one of DecoyKinds) that can be ADDED to a
+// wallet directory while the process runs (AddDecoy); deterministic, distinct from the
+// start-up entries and from one another.  keys are the start-up keys of the wallet
+// (misfiled-wallet-key copies the last one).
+func ExtraDecoy(kind string, n int, keys []WalletKey) (Decoy, error) {
+	for ki, k := range DecoyKinds {
+		if k == kind {
+			return newDecoy(kind, fmt.Sprintf("verifharness added decoy %s #%d", kind, n), 1000+n*len(DecoyKinds)+ki, keys), nil
+		}
+	}
+	return Decoy{}, fmt.Errorf("unknown decoy kind %q", kind)
+}
+
+// ExtraKey returns the n-th signing key that can be ADDED to a wallet directory while the
+// process runs (AddKey); deterministic and distinct from Keys(..).
+func ExtraKey(n int) WalletKey {
+	d, a := labelKey(fmt.Sprintf("verifharness added wallet key #%d", n))
+	return WalletKey{Priv: d, Address: a, AddrHex: hex.EncodeToString(a[:]), Password: fmt.Sprintf("added battery %d staple", n)}
+}
+
+// Ways a file can reach its name in the wallet directory (PlaceFile).
+const (
+	PlaceRename  = "rename"   // written under a temporary name that no naming rule matches, then renamed
+	PlaceInPlace = "in-place" // created under its final name and written there
+)
+
+// PlaceFile puts one file into dir.  It returns after the content is completely written and
+// the file closed, so whoever reads the file after that sees all of it.
+func PlaceFile(dir, name string, content []byte, how string) error {
+	final := filepath.Join(dir, name)
+	switch how {
+	case "", PlaceRename:
+		tmp := filepath.Join(dir, ".incoming-"+name+".part")
+		if err := os.WriteFile(tmp, content, 0o600); err != nil {
+			return err
+		}
+		return os.Rename(tmp, final)
+	case PlaceInPlace:
+		return os.WriteFile(final, content, 0o600)
+	}
+	return fmt.Errorf("unknown way to place a file: %q", how)
+}
+
+func keyFileOf(k WalletKey, serial int) ([]byte, error) {
+	priv := make([]byte, 32)
+	k.Priv.FillBytes(priv)
+	salt := secp.Keccak256([]byte(fmt.Sprintf("verifharness salt #%d", serial)))
+	iv := secp.Keccak256([]byte(fmt.Sprintf("verifharness iv #%d", serial)))[:16]
+	uuid := fmt.Sprintf("00000000-0000-4000-8000-%012x", serial+1)
+	return KeystoreV3(priv, k.AddrHex, k.Password, salt, iv, uuid)
+}
+
+// AddKey adds the key file and the password file of k to a wallet directory.  passwordFirst
+// says which of the two is placed first; both are complete when AddKey returns.
+func AddKey(dir string, k WalletKey, serial int, how string, passwordFirst bool, primaryExt, passwordExt string) error {
+	doc, err := keyFileOf(k, 5000+serial)
+	if err != nil {
+		return err
+	}
+	key := func() error { return PlaceFile(dir, k.AddrHex+primaryExt, doc, how) }
+	pwd := func() error { return PlaceFile(dir, k.AddrHex+passwordExt, []byte(k.Password+"\n"), how) }
+	if passwordFirst {
+		if err := pwd(); err != nil {
+			return err
+		}
+		return key()
+	}
+	if err := key(); err != nil {
+		return err
+	}
+	return pwd()
+}
+
+// AddDecoy adds the file(s) of one decoy entry (ExtraDecoy) to a wallet directory.
+func AddDecoy(dir string, keys []WalletKey, d Decoy, how string, passwordFirst bool, primaryExt, passwordExt string) error {
+	doc, filePassword, err := decoyFiles(d, keys)
+	if err != nil {
+		return err
+	}
+	key := func() error { return PlaceFile(dir, d.AddrHex+primaryExt, doc, how) }
+	pwd := func() error {
+		if filePassword == "" {
+			return nil
+		}
+		return PlaceFile(dir, d.AddrHex+passwordExt, []byte(filePassword), how)
+	}
+	if passwordFirst {
+		if err := pwd(); err != nil {
+			return err
+		}
+		return key()
+	}
+	if err := key(); err != nil {
+		return err
+	}
+	return pwd()
+}
+
+// decoyFiles renders the key file of a decoy entry and the content of its password file
+// ("" = no password file).
+func decoyFiles(d Decoy, keys []WalletKey) (doc []byte, filePassword string, err error) {
+	i := d.serial
+	salt := secp.Keccak256([]byte(fmt.Sprintf("verifharness decoy salt #%d", i)))
+	iv := secp.Keccak256([]byte(fmt.Sprintf("verifharness decoy iv #%d", i)))[:16]
+	uuid := fmt.Sprintf("00000000-0000-4000-9000-%012x", i+1)
+	own, _ := labelKey(d.label)
+	priv := make([]byte, 32)
+	password := "decoy password"
+	filePassword = "decoy password\n"
+	switch d.Kind {
+	case "misfiled-wallet-key":
+		// a faithful copy of another account's key file (its informational address member
+		// included) and of its password file, stored under this address's name
+		k := keys[len(keys)-1]
+		k.Priv.FillBytes(priv)
+		password, filePassword = k.Password, k.Password+"\n"
+		doc, err = KeystoreV3(priv, k.AddrHex, password, salt, iv, uuid)
+	case "misfiled-foreign-key":
+		// a key that belongs to no account of the wallet; the address member claims the file name's address
+		f, _ := labelKey("verifharness foreign key")
+		f.FillBytes(priv)
+		doc, err = KeystoreV3(priv, d.AddrHex, password, salt, iv, uuid)
+	case "garbage":
+		doc = []byte("this is not a key file\n")
+	case "wrong-password":
+		own.FillBytes(priv)
+		doc, err = KeystoreV3(priv, d.AddrHex, password, salt, iv, uuid)
+		filePassword = "not the " + password + "\n"
+	default: // no-password: the right key, but no password file (and the process has no default password file)
+		own.FillBytes(priv)
+		doc, err = KeystoreV3(priv, d.AddrHex, password, salt, iv, uuid)
+		filePassword = ""
+	}
+	return doc, filePassword, err
+}
+
 // WriteDecoys adds the decoy entries to a wallet directory written by WriteWallet.
 func WriteDecoys(dir string, keys []WalletKey, decoys []Decoy, primaryExt, passwordExt string) error {
-	for i, d := range decoys {
-		salt := secp.Keccak256([]byte(fmt.Sprintf("verifharness decoy salt #%d", i)))
-		iv := secp.Keccak256([]byte(fmt.Sprintf("verifharness decoy iv #%d", i)))[:16]
-		uuid := fmt.Sprintf("00000000-0000-4000-9000-%012x", i+1)
-		own, _ := labelKey("verifharness decoy " + d.Kind)
-		priv := make([]byte, 32)
-		password, filePassword := "decoy password", "decoy password\n"
-		var doc []byte
-		var err error
-		switch d.Kind {
-		case "misfiled-wallet-key":
-			// a faithful copy of another account's key file (its informational address member
-			// included) and of its password file, stored under this address's name
-			k := keys[len(keys)-1]
-			k.Priv.FillBytes(priv)
-			password, filePassword = k.Password, k.Password+"\n"
-			doc, err = KeystoreV3(priv, k.AddrHex, password, salt, iv, uuid)
-		case "misfiled-foreign-key":
-			// a key that belongs to no account of the wallet; the address member claims the file name's address
-			f, _ := labelKey("verifharness foreign key")
-			f.FillBytes(priv)
-			doc, err = KeystoreV3(priv, d.AddrHex, password, salt, iv, uuid)
-		case "garbage":
-			doc = []byte("this is not a key file\n")
-		case "wrong-password":
-			own.FillBytes(priv)
-			doc, err = KeystoreV3(priv, d.AddrHex, password, salt, iv, uuid)
-			filePassword = "not the " + password + "\n"
-		default: // no-password: the right key, but no password file (and the process has no default password file)
-			own.FillBytes(priv)
-			doc, err = KeystoreV3(priv, d.AddrHex, password, salt, iv, uuid)
-			filePassword = ""
-		}
+	for _, d := range decoys {
+		doc, filePassword, err := decoyFiles(d, keys)
 		if err != nil {
 			return err
 		}
